@@ -47,12 +47,13 @@ CHECKS = {
             {'fn': H + 'H_C01_2_Clock', 'must_reach': ['vesting-destroy-refused']},
             {'fn': C + 'H_C01_3_StakingTransferChoice', 'native': False, 'over': {'max-decisions': 2000}, 'must_reach': ['chosen']},
             {'fn': C + 'H_C01_4_NodeLocalReads'},
+            {'fn': H + 'H_C01_6_ProcessLifetime', 'must_reach': ['compared']},
             {'fn': T + 'H_C01_5_TracerSettingIndependence', 'over': {'max-decisions': 2000, 'max-paths': 100000}, 'must_reach': ['compared']},
         ],
         'level_text': 'Self-composition under environment non-determinism, decided by bounded symbolic execution of the real StateDB commit/destroy code: the same history is executed twice with independently chosen Go-map iteration orders (every permutation explored) and independent symbolic wall-clock values, and z3 decides equality of all stores and of the emitted event sequence for every symbolic balance/kind/end time in the bounds.',
         'level_note': 'Only the determinism sources that /repo code itself introduces in the StateDB commit path (map iteration at commit, wall clock in the destroy guard) are decided; SDK modules, CometBFT, IAVL hashing and goroutine scheduling are outside. Trusted: gosym, solvers, store/account/bank models.',
         'bounds': ['H_C01_1: 2-3 touched accounts at fixed distinct addresses, each {empty base account | base account with symbolic positive balances in 2 denominations | coins without auth account}, each {touched | self-destructed}; every permutation of every map ranged over during CommitMultiStore, chosen independently in the two executions',
-                   'H_C01_3: staking precompile transfer() with 2-3 bonded validators with symbolic token amounts (ties allowed), caller with / without delegations, the keeper returning lists in two orders, all map permutations (engine-level: SDK staking keeper stubbed)', 'H_C01_4: a precompile deployed on the block branch, with / without an interleaved read of the committed state, exposure in the block\'s EVM compared', 'H_C01_5: one message (call / plain transfer / creation, quick-tier price sets, symbolic gas, value, balances, scripted contract with storage write or log) executed by a keeper without tracer and by one with the node-local tracer setting access_list or struct (json / markdown loggers print through reflection-based encoders and are not run)', 'H_C01_2: 1 account of 8 kinds (none, base, module, continuous/delayed/periodic/permanent-locked vesting, bare base vesting), symbolic end time and block time in [0, 2^40), 4 destroy routes, time.Now() fresh symbolic value per call in [1970, 2200]'] ,
+                   'H_C01_3: staking precompile transfer() with 2-3 bonded validators with symbolic token amounts (ties allowed), caller with / without delegations, the keeper returning lists in two orders, all map permutations (engine-level: SDK staking keeper stubbed)', 'H_C01_4: a precompile deployed on the block branch, with / without an interleaved read of the committed state, exposure in the block\'s EVM compared', 'H_C01_6: x/evm BeginBlock + EndBlock of a block at a symbolic height in [2, 2^62) by a node running since the previous block and by one restarted in between (keepers rebuilt over the same stores): same contents and the same sequence of store writes (re-writes of unchanged values included: IAVL turns them into new node versions)', 'H_C01_5: one message (call / plain transfer / creation, quick-tier price sets, symbolic gas, value, balances, scripted contract with storage write or log) executed by a keeper without tracer and by one with the node-local tracer setting access_list or struct (json / markdown loggers print through reflection-based encoders and are not run)', 'H_C01_2: 1 account of 8 kinds (none, base, module, continuous/delayed/periodic/permanent-locked vesting, bare base vesting), symbolic end time and block time in [0, 2^40), 4 destroy routes, time.Now() fresh symbolic value per call in [1970, 2200]'] ,
         'outside': ['determinism of SDK modules (bank, staking, distribution), CometBFT, IAVL', 'goroutine scheduling, node-local configuration', 'NewEVM block context fields, per-block bookkeeping across processes', 'more than 3 accounts destroyed in one transaction'],
         'assumptions': SDB_ASSUMPTIONS,
     },
